@@ -537,7 +537,7 @@ func (prog *Program) LoadContracts(file string, pkg *types.Package, extern bool)
 					}
 				case "at":
 					// at call NAME#n assert e
-					m := regexp.MustCompile(`^call\s+([\w.$()*]+?)(?:#(\d+))?\s+assert\s+(.*)$`).FindStringSubmatch(rest)
+					m := regexp.MustCompile(`^call\s+([\w.$()*/:\-]+?)(?:#(\d+))?\s+assert\s+(.*)$`).FindStringSubmatch(rest)
 					if m == nil {
 						return fmt.Errorf("%s:%d: bad 'at' clause", file, l.line)
 					}
